@@ -116,6 +116,27 @@ def faults(spec, poi):
                                     a[key] = a[key] + [b[key][-1]]
                                     b[key] = b[key][:-1]
                                 yield 'modifier-data-length', 'histosys/%s on sample %s: one bin moved from channel %d to channel %d (total length unchanged)' % (m['name'], s['name'], cj, ci), s2, poi
+    # F5c the same for one staterror name carried by one sample in two channels (a well-formed shared staterror is set up first)
+    for ci, c in enumerate(chans):
+        for cj, c2 in enumerate(chans):
+            if ci == cj or len(c2['samples'][0]['data']) < 2:
+                continue
+            for si, smp_i in enumerate(c['samples']):
+                for sj, smp_j in enumerate(c2['samples']):
+                    if smp_i['name'] != smp_j['name']:
+                        continue
+                    s2 = copy.deepcopy(spec)
+                    for cc in (s2['channels'][ci], s2['channels'][cj]):
+                        for smp in cc['samples']:
+                            smp['modifiers'] = [m for m in smp['modifiers'] if m['type'] != 'staterror']
+                    a, b = s2['channels'][ci]['samples'][si], s2['channels'][cj]['samples'][sj]
+                    ua = [1.0 + 0.25 * k for k in range(len(a['data']))]
+                    ub = [2.0 + 0.25 * k for k in range(len(b['data']))]
+                    a['modifiers'].append({'name': 'stat_shared', 'type': 'staterror', 'data': ua + [ub[-1]]})
+                    b['modifiers'].append({'name': 'stat_shared', 'type': 'staterror', 'data': ub[:-1]})
+                    s2['parameters'] = [p for p in s2['parameters'] if not p['name'].startswith('staterror')]
+                    yield 'modifier-data-length', 'staterror/stat_shared on sample %s: one bin moved from channel %d to channel %d (total length unchanged)' % (
+                        smp_i['name'], cj, ci), s2, poi
     # F6 shapefactor shared between channels of different bin counts
     for ci, c in enumerate(chans):
         for cj, c2 in enumerate(chans):
@@ -283,6 +304,35 @@ def faults(spec, poi):
             yield 'lumi-without-settings', 'lumi parameter configuration%s lacks %s' % (at, drop), s3, poi
 
 
+# classes whose members are not inconsistent by construction: whether the two demands on one name conflict is decided by the
+# Coq model (Impl.build, proved total in WfTotal.v), evaluated on the very spec
+MODEL_DECIDED = ('name-collision', 'nonshared-name-reuse')
+
+
+def stratum(cls, where):
+    """quick tier: positions are sampled per (class, stratum); separated (non-adjacent) positions are a stratum of their own"""
+    import re
+    m = re.search(r'(\d+) (?:samples|modifiers) in between', where)
+    if m and int(m.group(1)) > 0:
+        return 'separated'
+    if 'total length unchanged' in where:
+        return 'compensating'
+    if cls == 'name-collision':
+        m = re.search(r'used as (\S+) and as (\S+):', where)
+        return '+'.join(sorted([m.group(1), m.group(2)])) if m else ''
+    return ''
+
+
+def load_corpus():
+    import glob, os
+    out = []
+    if os.environ.get('VERIF_NO_CORPUS'):        # (testing the generator alone)
+        return out
+    for f in sorted(glob.glob(os.path.join(core.VERIF, 'corpus', 'C20', '*.json'))):
+        out.append(json.load(open(f)))
+    return out
+
+
 def outcome(spec, poi):
     import pyhf
     try:
@@ -323,14 +373,22 @@ def run(ctx):
             found = True
             continue
         fl = list(faults(spec, poi))
-        # quick: every class, at most a few positions of each per spec; thorough: every position
+        # quick: every class, at most a few positions of each (class, stratum) per spec; thorough: every position
         if ctx.quick:
             bycls = {}
             for f in fl:
-                bycls.setdefault(f[0], []).append(f)
-            fl = [f for cl, lst in bycls.items() for f in rng.sample(lst, min(len(lst), 4))]
+                bycls.setdefault((f[0], stratum(f[0], f[1])), []).append(f)
+            fl = [f for (cl, stm), lst in bycls.items() for f in rng.sample(lst, min(len(lst), 1 if cl == 'name-collision' and '+' in stm else 4))]
+        else:
+            bycls = {}
+            for f in fl:
+                bycls.setdefault((f[0], stratum(f[0], f[1])), []).append(f)
+            fl = [f for (cl, stm), lst in bycls.items() for f in (rng.sample(lst, min(len(lst), 6)) if cl == 'name-collision' else lst)]
         for cls, where, s2, p2 in fl:
             cases.append(dict(cls=cls, where=where, spec=s2, poi=p2, base=k))
+    # corpus: minimized past failures, first
+    corpus = load_corpus()
+    cases = [dict(cls=c['fault'], where=c['where'], spec=c['spec'], poi=c.get('poi'), base=-1 - i) for i, c in enumerate(corpus)] + cases
     if not ctx.quick:
         # pairs of faults: second fault injected into an already faulted spec
         extra = []
@@ -358,11 +416,21 @@ def run(ctx):
         if cl == 'schema':
             continue
         st['refused' if cl == 'pyhf-exception' else cl.replace('-', '_')] += 1
-        if cl != 'pyhf-exception':
+        mo = core.parse_qc(res[i]) if res is not None else None
+        mcl = None if mo is None else 'accepted' if mo == 'ok' else ('python-exception' if mo.startswith('Py') else 'pyhf-exception')
+        # name sharing is inconsistent exactly when the model refuses it (a legal pair, e.g. normsys + histosys, must be accepted)
+        legal = c['cls'].split('+')[0] in MODEL_DECIDED and mcl != 'pyhf-exception'
+        if legal:
+            st['legal'] = st.get('legal', 0) + 1
+        if cl != 'pyhf-exception' and not legal:
             base = c['cls'].split('+')[0]
             detail = ''
+            if base == 'name-collision':
+                detail = ':' + stratum(base, c['where'])
+            if base == 'nonshared-name-reuse':
+                detail = ':separated' if stratum(base, c['where']) == 'separated' else ':adjacent'
             if base in ('modifier-data-length', 'sample-length') and 'total length unchanged' in c['where']:
-                detail = ':compensating'
+                detail = ':compensating-staterror' if 'staterror/' in c['where'] else ':compensating'
             if base == 'lumi-without-settings' and 'lacks' in c['where']:
                 detail = ':' + c['where'].split()[-1]
             if base == 'override-length':
@@ -371,11 +439,10 @@ def run(ctx):
                 detail = ':' + c['where'].split(': ')[1].split('/')[0]
             sig = '%s:%s%s' % (base, cl, detail)
             ctx.violation(sig, 'inconsistent specification (%s: %s) is %s' % (c['cls'], c['where'], 'accepted as a model' if cl == 'accepted' else 'rejected with %s (%s)' % (c['impl'], c['msg'])),
-                          dict(fault=c['cls'], where=c['where'], spec=c['spec'], poi=c['poi'], impl=c['impl'], expected='one of pyhf\'s own exception types',
+                          dict(fault=c['cls'], where=c['where'], spec=c['spec'], poi=c['poi'], impl=c['impl'],
+                               expected='one of pyhf\'s own exception types' + (' (Coq model of build: %s)' % mo if mo else ''),
                                theorem='C20_refused_with_pyhf_exception'))
         if res is not None:
-            mo = core.parse_qc(res[i])
-            mcl = 'accepted' if mo == 'ok' else ('python-exception' if mo.startswith('Py') else 'pyhf-exception')
             agree = (mcl == cl) and (cl != 'pyhf-exception' or mo == c['impl'] or True)
             if not agree:
                 ndis += 1
@@ -388,8 +455,11 @@ def run(ctx):
         ctx.violation('tie-broken', tie[:300], dict(kind='tie', detail=tie, theorem='props/C20.v / Impl.build correspondence',
                                                      first_disagreement=ctx.coverage.get('first_disagreement')), nofail=True)
     ctx.coverage.update(evaluations=len(cases), distinct_nontrivial=len(seen), per_class=per_class, model_impl_disagreements=ndis,
-                        rule='well-formed generated specs (accepted, checked) x every single structural fault of the ten listed classes at '
-                             'applicable positions (quick: <=4 positions per class and spec; thorough: all positions + random pairs); outcome of '
+                        rule='corpus, then well-formed generated specs (accepted, checked) x every single structural fault of the listed classes at '
+                             'every applicable position, adjacent or separated by unrelated items (duplicate inserted at every list position; a '
+                             'non-shared shapesys name reused on every other sample of the spec; one name with every pair of the seven modifier '
+                             'types on one sample / two samples / two channels, legality decided by the Coq model of build; quick: <=4 positions '
+                             'per class, stratum (adjacent/separated) and spec, one per type pair; thorough: all positions + random pairs); outcome of '
                              'pyhf.Model(spec, poi_name=...) after schema validation: accepted / pyhf exception / other exception; compared with '
                              'Impl.build evaluated in Coq. distinct = (class, base spec, position)',
                         samples=[dict(fault=c['cls'], where=c['where'], impl=c['impl']) for c in cases[:4]])
